@@ -58,7 +58,7 @@ Record st := mkSt {
   inq : list seg;              (* _incoming_segments_queue *)
   lock : option N;             (* _flush_lock holder *)
   ctr : N;                     (* receive cipher-state nonce of the current transport *)
-  stored : N;                  (* profile config.server_static_public (0 = none) *)
+  stored : N;                  (* profile config.server_static_public, in memory (0 = none); the file follows at EPersist *)
   lrs : N;                     (* layer._rs *)
   npc_ : npc;
   script : list nev;
@@ -114,8 +114,11 @@ Definition flush_step (me : N) (f : fpc) (s : st) : option (list label * st * fr
   | FMach => if is_tr (ps s) then Some ([LSt PTr], s, FNext FGet) else Some ([LCrash], s, FCrash)
   | FGet => match inq s with
             | [] => None
-            | x :: q => Some ([LGet (sid_of x); LUp (sid_of x)],
-                              add_log (EUp (ctr s) x) (set_ctr (ctr s + 1) (set_inq q s)), FNext FSize)
+            | SData i :: q => Some ([LGet i; LUp i],
+                                    add_log (EUp (ctr s) (SData i)) (set_ctr (ctr s + 1) (set_inq q s)), FNext FSize)
+            | SHello i _ _ _ :: q =>   (* a handshake message does not decrypt as a transport frame: the
+                                          exception leaves the thread dead with the lock held *)
+                Some ([LGet i; LCrash], set_inq q s, FCrash)
             end
   | FRel => Some ([LRel], set_lock None s, FDone)
   end.
@@ -197,10 +200,13 @@ Definition hs_step (s : st) (w : worker) : option (list label * st * hpc) :=
             end
   | HFinish nrs => Some ([LDown 2], s, HSetT nrs)
   | HSetT nrs => if is_hs (ps s)
-                 then Some ([LSt PTr], set_ctr 0 (set_ps PTr s),
+                 then Some ([LSt PTr],
+                            (* _on_protocol_state_changed: config.server_static_public := rs happens here,
+                               in memory, BEFORE profile.write_config is called *)
+                            set_ctr 0 (set_ps PTr (if (lrs s =? nrs)%N then s else set_stored nrs s)),
                             if (lrs s =? nrs)%N then HFlush FAcq else HPersist nrs)
                  else Some ([LCrash], s, HCrashed)
-  | HPersist nrs => Some ([LPersist nrs], add_log (EPersist nrs) (set_lrs nrs (set_stored nrs s)), HFlush FAcq)
+  | HPersist nrs => Some ([LPersist nrs], add_log (EPersist nrs) (set_lrs nrs s), HFlush FAcq)
   | HFlush f =>
       match flush_step (w_att w + 1) f s with
       | None => None
